@@ -668,16 +668,28 @@ def fam_eq_array(tier, seed, extra=()):
         return "([" + body + "]~ $])"
     rnd = random.Random(97 + seed)
     for content in ([["1", "2.5", "2.5"], ["1", '"s"'], ["2.5", "1", "1"]] + ([] if tier == "quick" else [["true", "1", "1.5"], ["1", "2", "2.5", '"s"']])):
-        routes = []
-        for cut in range(len(content) + 1):
-            for h1 in ("lit", "part", "filter", "collect"):
-                for h2 in ("lit", "part", "filter", "collect"):
-                    routes.append(f"({_part(h1, content[:cut])} + {_part(h2, content[cut:])})")
+        whole = ", ".join(content)
+
+        def _routes(tag):
+            """(setup statements, expression) pairs; `tag` keeps the names of two routes used in one program apart"""
+            rs = []
+            for cut in range(len(content) + 1):
+                # `wide`: the part is cut out of the WHOLE content by position with `\\`, so its stored element type is the union
+                # of all the element types although it holds only some of them
+                nm = f"w{tag}{cut}"
+                setup = (f"c{nm} := mut 0; {nm} := [{whole}]~ \\ (x: any) -> bool {{ c{nm} += 1; return *c{nm} <= {cut} }}; ")
+                for h1 in ("lit", "part", "filter", "collect", "wide"):
+                    for h2 in ("lit", "part", "filter", "collect", "wide"):
+                        p1 = f"{nm}.0" if h1 == "wide" else _part(h1, content[:cut])
+                        p2 = f"{nm}.1" if h2 == "wide" else _part(h2, content[cut:])
+                        rs.append((setup if "wide" in (h1, h2) else "", f"({p1} + {p2})"))
+            return rs
         lit = "[" + ", ".join(content) + "]"
-        for i, r1 in enumerate(routes):
-            others = [lit] + rnd.sample(routes, 3 if tier == "quick" else 8)
-            for r2 in others:
-                out.append(Case(f"arr/mixed/{k}", f"f := (u: int) -> (bool, bool, bool) {{ x := {r1}; y := {r2}; return (x == y, y == x, x != y) }}; f(0)",
+        ra, rb = _routes("a"), _routes("b")
+        for i, (s1, r1) in enumerate(ra):
+            others = [("", lit)] + rnd.sample(rb, 3 if tier == "quick" else 8)
+            for s2, r2 in others:
+                out.append(Case(f"arr/mixed/{k}", f"f := (u: int) -> (bool, bool, bool) {{ {s1}{s2}x := {r1}; y := {r2}; return (x == y, y == x, x != y) }}; f(0)",
                                 (True, True, False), what=f"same mixed content {lit} along two routes"))
                 k += 1
     out.append(Case(f"arr/match/{k}", "match [1] + [2] { ([1, 2]) => 1, => 2, }", 1))
